@@ -12,6 +12,7 @@ CONSTANTS
   EmptyRaises = FALSE
   Emit = FALSE
   Objs = {1}
+  OFields = {"src", "bin"}
   Rich = 0
   SharedMemo = FALSE
   EmitObj = TRUE
